@@ -143,6 +143,10 @@ Neighbors find_neighbors_bruteforce_impl(const RandomAccessIterator& begin, cons
             if (neighbors_iter->first != iter)
                 local_neighbors.push_back(neighbors_iter->first - begin);
         }
+        // The query is missing from its k+1 closest objects only if all of them
+        // coincide with it (distance zero): any k of them are its nearest neighbors
+        if (local_neighbors.size() > static_cast<size_t>(k))
+            local_neighbors.pop_back();
         neighbors.push_back(local_neighbors);
     }
     return neighbors;
@@ -164,6 +168,10 @@ Neighbors find_neighbors_vptree_impl(const RandomAccessIterator& begin, const Ra
         LocalNeighbors local_neighbors = tree.search(i, k + 1);
         auto it = std::remove(local_neighbors.begin(), local_neighbors.end(), i - begin);
         local_neighbors.erase(it, local_neighbors.end());
+        // The query is missing from the result only if k+1 other objects coincide
+        // with it; results are ordered from the farthest to the nearest: drop the farthest
+        if (local_neighbors.size() > static_cast<size_t>(k))
+            local_neighbors.erase(local_neighbors.begin());
         neighbors.push_back(local_neighbors);
     }
 
